@@ -224,6 +224,9 @@ class StubSim(mosaik_api_v3.Simulator):
                         continue
                     if (ll is None or k < ll) and h01(b, "eo", eid, a) < beh.get("p_out", 1.0):
                         data.setdefault(eid, {})[a] = f"{self.sid}.{eid}.{a}@{time}#{k}{self.idig}"
+        if beh.get("pers_offset") and data:
+            data["time"] = time + beh["pers_offset"]
+            return data
         if beh.get("future") and (not any_p or beh.get("future_pers")) and data:
             if h01(b, "fut") < beh.get("p_future", 0.3):
                 data["time"] = time + 1 + h64(b, "fd") % 3
